@@ -24,6 +24,8 @@ struct track
 {
     int fd4;
     int fd6;
+    bool fd4_bound;
+    bool fd6_bound;
     int fd_reg_id;
     double tcp_connect_timeout;
     struct tcp_opts tcp_opts;
@@ -125,6 +127,12 @@ static int *track_get_current_fd_ptr(struct track *track)
 	&track->fd4 : &track->fd6;
 }
 
+static bool *track_get_current_bound_ptr(struct track *track)
+{
+    return track_get_current_family(track) == AF_INET ?
+	&track->fd4_bound : &track->fd6_bound;
+}
+
 static int track_get_current_fd(struct track *track)
 {
     int *fd = track_get_current_fd_ptr(track);
@@ -203,7 +211,12 @@ static void track_connect_next(struct track *track)
 	return;
     }
 
-    if (track->local_ip != NULL) {
+    /* The same socket is used for all attempts of an address family,
+       and stays bound when an attempt is aborted. Binding it again
+       fails (EINVAL) if a local port was specified. */
+    bool *bound = track_get_current_bound_ptr(track);
+
+    if (track->local_ip != NULL && !*bound) {
 	struct sockaddr_storage laddr;
 	int64_t scope = track_get_current_scope(track);
 
@@ -220,6 +233,8 @@ static void track_connect_next(struct track *track)
 	    track_connect_next(track);
 	    return;
 	}
+
+	*bound = true;
     }
 
     ut_assert(track->fd_reg_id == -1);
